@@ -6,6 +6,8 @@ use vstd::prelude::*;
 
 verus! {
 
+//@ include std_specs.inc
+
 global size_of usize == 8;
 
 //@ item struct OcTreeLeaf
